@@ -96,7 +96,7 @@ def arrival_pattern(rng, rps, burst, start, n):
 
 def seq_cases(rng, tier):
     cases = []
-    n_cases = 70 if tier == "quick" else 500
+    n_cases = 70 if tier == "quick" else 2000
     for i in range(n_cases):
         rps_txt = rng.choice(RPS_TEXT)
         rps = float(rps_txt)
@@ -192,7 +192,7 @@ def state_cases(rng, tier):
         ("none", None, [{"path": "/a"}, {"path": "/b"}]),
         ("all-overridden", "rps 1\n burst 1", [{"path": "/a", "rl": "rps 3"}, {"path": "/b", "rl": "rps 0.25\n burst 4"}]),
     ]
-    reps = 3 if tier == "quick" else 20
+    reps = 3 if tier == "quick" else 60
     for name, g, routes in shapes:
         for rep in range(reps):
             paths = [r["path"] for r in routes] + ["/unknown"]
@@ -260,7 +260,7 @@ def size_plan(rng, tier):
     add("/d", 33, t=NOW + 2000 * NS, tag="rate")        # token available, body too large: 413, and the token is spent
     add("/d", 4, t=NOW + 2000 * NS, tag="rate")
     add("/nope", 4, tag="notfound")
-    for _ in range(10 if tier == "quick" else 120):
+    for _ in range(10 if tier == "quick" else 500):
         path, mb, mh = rng.choice([("/b", 16, 64), ("/c", 1024, 256), ("/e", 2048, 256)])
         body = rng.choice([mb - 1, mb, mb + 1, rng.randint(0, 2 * mb)])
         hdrs = [("X-R%d" % i, rng.randint(0, mh // 2)) for i in range(rng.randint(0, 3))]
